@@ -254,7 +254,11 @@ func checkOpenReads(evs []IOEvent) *Mismatch {
 func Shrink(ops []Op, fails func([]Op) bool) []Op {
 	cur := append([]Op{}, ops...)
 	n := 2
+	hangs0 := hangsSeen
 	for len(cur) >= 2 {
+		if hangsSeen > hangs0+1 {
+			break // goroutines stuck on a lock the failure left held: further replays only wait for the watchdog
+		}
 		chunk := (len(cur) + n - 1) / n
 		reduced := false
 		for start := 0; start < len(cur); start += chunk {
